@@ -64,6 +64,17 @@ def plan(tier, seed):
     return [{"name": f"C14-{i}", "shard": i, "items": g, "dists": i, "x64": True, "timeout": 3400} for i, g in enumerate(groups)]
 
 
+def _with_tseed(s, t):
+    s = dict(s)
+    if s["op"] in ("Coupling", "MAF"):
+        s["tseed"] = t
+    if "args" in s:
+        s["args"] = [_with_tseed(a, t) for a in s["args"]]
+    if "child" in s:
+        s["child"] = _with_tseed(s["child"], t)
+    return s
+
+
 def run_shard(shard):
     import equinox as eqx
     import jax
@@ -231,6 +242,10 @@ def run_shard(shard):
         for o in (S.ops_in(it["spec"]) if it["kind"] == "spec" else ["flow:" + it["case"]["factory"]]):
             rec.count("op_" + o)
         b2 = perturb(b, 0.25 if planar else 0.4, it["bseed"] + 5, clip=6.0)
+        if it["kind"] == "spec" and (S.ops_in(it["spec"]) & {"Coupling", "MAF"}):
+            # a second model of identical structure whose *static* parts (the conditioner's transformer constructor closure,
+            # built from another initial transformer) carry different values: a compile cache keyed too coarsely returns stale results
+            b2 = S.build(_with_tseed(it["spec"], 99), jr.PRNGKey(it["bseed"] + 777))
         shape, cshape = tuple(b.shape), (None if b.cond_shape is None else tuple(b.cond_shape))
 
         def pts(tag, n):
